@@ -35,7 +35,9 @@ static vx_bool in_list(unsigned i) { unsigned p = 0; for (unsigned k = 0; k < 6;
 static vx_bool in_alloc(unsigned i) { unsigned p = 0; for (unsigned k = 0; k < 6; ++k) { if (p == i) return 1; if (p > 4) return 0; p = w_next_alloc(p); } return 0; }
 static void env_unlink(unsigned i) { unsigned p = 0; for (unsigned k = 0; k < 6; ++k) { if (p > 4) return; unsigned n = w_next(p); if (n == i) { w_set_rec(p, w_req(p), w_state(p), w_age(p), w_next(i), w_next_alloc(p)); return; } p = n; } }
 
+void vx_env(const void* addr);
 int vx_mutex_try_lock(void) {
+    vx_env(NULL);      /* other threads also run between the caller's wait and its attempt to take the mutex */
     if (mode == 2 && holder == 0 && budget > 0 && nondet_unsigned() % 2) { --budget; holder = 2; }   /* another thread is faster */
     if (holder == 0) { holder = 1; return 1; }
     return 0;
@@ -96,6 +98,7 @@ void vx_env(const void* addr) {
 int waits;
 int vx_wait(void) {
     ++waits;
+    vx_env(NULL);      /* waiting is where the other threads make progress */
     if (mode == 2 && holder == 2 && (budget <= 0 || waits >= 2)) {       /* fairness: a combiner's pass is finite */
         if (w_state(me) == ACTIVE && w_req(me) >= OP && me_linked()) { ++applied[me]; w_env_set_req(me, RESPONSE); }
         holder = 0;
